@@ -339,12 +339,20 @@ theorem ruleApply_sim {rec : Sem0} (name : String) (mod : Nat) (body body' : Exp
   intro n hn
   rw [hn]
 
-theorem trySkip_sim {rec : Sem0} (r r' : Option Rule) (s : S0)
-    (hr : match r, r' with
-      | none, none => True
-      | some x, some x' => x'.name = x.name ∧ x'.mod = x.mod ∧
-          SimAt inp g' rec (ruleAtomic x.name x.mod s.atomic) x.body x'.body
-      | _, _ => False)
+/-- two rule-table entries: same name and modifier, and the first body is simulated by the
+    second whatever the caller's atomicity -/
+def RuleSim (rec : Sem0) (r r' : Option Rule) : Prop :=
+  match r, r' with
+  | none, none => True
+  | some x, some x' => x'.name = x.name ∧ x'.mod = x.mod ∧
+      ∀ b, SimAt inp g' rec (ruleAtomic x.name x.mod b) x.body x'.body
+  | _, _ => False
+
+theorem RuleSim.isNone {rec : Sem0} {r r' : Option Rule} (h : RuleSim inp g' rec r r') :
+    r'.isNone = r.isNone := by
+  cases r <;> cases r' <;> simp_all [RuleSim]
+
+theorem trySkip_sim {rec : Sem0} (r r' : Option Rule) (s : S0) (hr : RuleSim inp g' rec r r')
     (hne : trySkip rec r s ≠ .stop .oof) :
     Evt (fun n => trySkip (run g' inp n) r' s = trySkip rec r s) := by
   cases r with
@@ -361,9 +369,406 @@ theorem trySkip_sim {rec : Sem0} (r r' : Option Rule) (s : S0)
       simp only [] at hne ⊢
       have : ruleApply rec x.name x.mod x.body s ≠ .oof := by
         intro e; rw [e] at hne; exact hne rfl
-      refine (ruleApply_sim inp g' x.name x.mod x.body x'.body s h3 this).mono ?_
+      refine (ruleApply_sim inp g' x.name x.mod x.body x'.body s (h3 _) this).mono ?_
       intro n hn
       rw [h1, h2, hn]
+
+theorem skipLoop_sim {rec : Sem0} (ws ws' cm cm' : Option Rule)
+    (hw : RuleSim inp g' rec ws ws') (hc : RuleSim inp g' rec cm cm') :
+    ∀ (k : Nat) (s : S0) (acc : List Pair), skipLoop rec ws cm k s acc ≠ .oof →
+      Evt2 (fun n k' => skipLoop (run g' inp n) ws' cm' k' s acc = skipLoop rec ws cm k s acc) := by
+  intro k
+  induction k with
+  | zero => intro s acc hne; exact absurd rfl hne
+  | succ k ih =>
+    intro s acc hne
+    simp only [skipLoop] at hne
+    have h1 : trySkip rec ws s ≠ .stop .oof := by
+      intro e; rw [e] at hne; exact hne rfl
+    obtain ⟨N1, e1⟩ := trySkip_sim inp g' ws ws' s hw h1
+    cases ht : trySkip rec ws s with
+    | matched s1 ps =>
+      rw [ht] at hne e1
+      obtain ⟨N2, e2⟩ := ih s1 _ hne
+      refine ⟨N1 + N2 + 1, fun n k' hn hk => ?_⟩
+      obtain ⟨k'', rfl⟩ : ∃ m, k' = m + 1 := ⟨k' - 1, by omega⟩
+      simp only [skipLoop, ht, e1 n (by omega)]
+      exact e2 n k'' (by omega) (by omega)
+    | stop x =>
+      rw [ht] at e1
+      refine ⟨N1 + 1, fun n k' hn hk => ?_⟩
+      obtain ⟨k'', rfl⟩ : ∃ m, k' = m + 1 := ⟨k' - 1, by omega⟩
+      simp only [skipLoop, ht, e1 n (by omega)]
+    | no =>
+      rw [ht] at hne e1
+      simp only [] at hne
+      have h2 : trySkip rec cm s ≠ .stop .oof := by
+        intro e; rw [e] at hne; exact hne rfl
+      obtain ⟨M1, f1⟩ := trySkip_sim inp g' cm cm' s hc h2
+      cases ht2 : trySkip rec cm s with
+      | matched s1 ps =>
+        rw [ht2] at hne f1
+        obtain ⟨N2, e2⟩ := ih s1 _ hne
+        refine ⟨N1 + M1 + N2 + 1, fun n k' hn hk => ?_⟩
+        obtain ⟨k'', rfl⟩ : ∃ m, k' = m + 1 := ⟨k' - 1, by omega⟩
+        simp only [skipLoop, ht, ht2, e1 n (by omega), f1 n (by omega)]
+        exact e2 n k'' (by omega) (by omega)
+      | stop x =>
+        rw [ht2] at f1
+        refine ⟨N1 + M1 + 1, fun n k' hn hk => ?_⟩
+        obtain ⟨k'', rfl⟩ : ∃ m, k' = m + 1 := ⟨k' - 1, by omega⟩
+        simp only [skipLoop, ht, ht2, e1 n (by omega), f1 n (by omega)]
+      | no =>
+        rw [ht2] at f1
+        refine ⟨N1 + M1 + 1, fun n k' hn hk => ?_⟩
+        obtain ⟨k'', rfl⟩ : ∃ m, k' = m + 1 := ⟨k' - 1, by omega⟩
+        simp only [skipLoop, ht, ht2, e1 n (by omega), f1 n (by omega)]
+
+/-- implicit trivia of the source (`rec`, budget `k`) is simulated by the target's -/
+def SkipSim (rec : Sem0) (k : Nat) : Prop :=
+  ∀ s, skip g rec k s ≠ .oof → Evt (fun n => skip g' (run g' inp n) n s = skip g rec k s)
+
+theorem skip_sim {rec : Sem0} (k : Nat)
+    (hf : RuleSim inp g' rec g.fusedSkip g'.fusedSkip)
+    (hw : RuleSim inp g' rec (g.lookup "WHITESPACE") (g'.lookup "WHITESPACE"))
+    (hc : RuleSim inp g' rec (g.lookup "COMMENT") (g'.lookup "COMMENT")) :
+    SkipSim g inp g' rec k := by
+  intro s hne
+  unfold skip at hne ⊢
+  by_cases ha : s.atomic = true
+  · simp only [ha, ↓reduceIte]; exact Evt.const trivial
+  · simp only [ha, Bool.false_eq_true, ↓reduceIte] at hne ⊢
+    cases hfs : g.fusedSkip with
+    | some x =>
+      cases hfs' : g'.fusedSkip with
+      | none => rw [hfs, hfs'] at hf; exact absurd hf id
+      | some x' =>
+        rw [hfs, hfs'] at hf
+        obtain ⟨h1, h2, h3⟩ := hf
+        rw [hfs] at hne
+        simp only [] at hne ⊢
+        refine (ruleApply_sim inp g' x.name x.mod x.body x'.body s (h3 _) hne).mono ?_
+        intro n hn
+        rw [h1, h2, hn]
+    | none =>
+      cases hfs' : g'.fusedSkip with
+      | some x' => rw [hfs, hfs'] at hf; exact absurd hf id
+      | none =>
+        rw [hfs] at hne
+        simp only [] at hne ⊢
+        rw [hw.isNone, hc.isNone]
+        by_cases hn : ((g.lookup "WHITESPACE").isNone && (g.lookup "COMMENT").isNone) = true
+        · simp only [hn, ↓reduceIte]; exact Evt.const trivial
+        · simp only [hn, Bool.false_eq_true, ↓reduceIte] at hne ⊢
+          exact (skipLoop_sim inp g' _ _ _ _ hw hc k s [] hne).diag
+
+/-- pointwise relation of two lists (core has no `List.Forall₂`) -/
+inductive All2 {α β : Type} (R : α → β → Prop) : List α → List β → Prop
+  | nil : All2 R [] []
+  | cons {a b l l'} : R a b → All2 R l l' → All2 R (a :: l) (b :: l')
+
+theorem All2.isEmpty {α β} {R : α → β → Prop} {l : List α} {l' : List β}
+    (h : All2 R l l') : l'.isEmpty = l.isEmpty := by
+  cases h <;> rfl
+
+theorem All2.length {α β} {R : α → β → Prop} {l : List α} {l' : List β}
+    (h : All2 R l l') : l'.length = l.length := by
+  induction h with
+  | nil => rfl
+  | cons _ _ ih => simp [ih]
+
+theorem All2.of_index {α β} {R : α → β → Prop} : ∀ (l : List α) (l' : List β) (_ : l.length = l'.length)
+    (_ : ∀ i (h1 : i < l.length) (h2 : i < l'.length), R l[i] l'[i]), All2 R l l'
+  | [], [], _, _ => .nil
+  | [], _ :: _, hl, _ => by simp at hl
+  | _ :: _, [], hl, _ => by simp at hl
+  | a :: l, b :: l', hl, h =>
+    .cons (h 0 (by simp) (by simp))
+      (All2.of_index l l' (by simpa using hl) fun i h1 h2 => by
+        have := h (i + 1) (by simp; omega) (by simp; omega)
+        simpa using this)
+
+theorem All2.index {α β} {R : α → β → Prop} {l : List α} {l' : List β} (h : All2 R l l') :
+    ∀ i (h1 : i < l.length) (h2 : i < l'.length), R l[i] l'[i] := by
+  induction h with
+  | nil => intro i h1; simp at h1
+  | cons hab _ ih =>
+    intro i h1 h2
+    cases i with
+    | zero => simpa using hab
+    | succ i => simpa using ih i (by simpa using h1) (by simpa using h2)
+
+theorem All2.imp {α β} {R S : α → β → Prop} {l : List α} {l' : List β} (h : All2 R l l')
+    (f : ∀ a b, R a b → S a b) : All2 S l l' := by
+  induction h with
+  | nil => exact .nil
+  | cons hab _ ih => exact .cons (f _ _ hab) ih
+
+theorem All2.replicate {α β} {R : α → β → Prop} {a : α} {b : β} (h : R a b) (n : Nat) :
+    All2 R (List.replicate n a) (List.replicate n b) := by
+  induction n with
+  | zero => exact .nil
+  | succ n ih => exact .cons h ih
+
+theorem All2.append {α β} {R : α → β → Prop} {l1 l2 : List α} {l1' l2' : List β}
+    (h1 : All2 R l1 l1') (h2 : All2 R l2 l2') : All2 R (l1 ++ l2) (l1' ++ l2') := by
+  induction h1 with
+  | nil => exact h2
+  | cons hab _ ih => exact .cons hab ih
+
+theorem seqL_sim {rec : Sem0} (hap : AP rec) (k : Nat) (hsk : SkipSim g inp g' rec k) (a : Bool) :
+    ∀ (es es' : List Expr), All2 (SimAt inp g' rec a) es es' →
+      ∀ (s : S0) (acc : List Pair), s.atomic = a → seqL g rec k es s acc ≠ .oof →
+        Evt (fun n => seqL g' (run g' inp n) n es' s acc = seqL g rec k es s acc) := by
+  intro es es' hes
+  induction hes with
+  | nil => intro s acc _ _; exact Evt.const rfl
+  | @cons e e' rest rest' he hrest ih =>
+    intro s acc ha hne
+    simp only [seqL] at hne ⊢
+    have h1 : rec e s ≠ .oof := by intro x; rw [x] at hne; exact hne rfl
+    have t1 := he s ha h1
+    rw [hrest.isEmpty]
+    cases hr : rec e s with
+    | oof => exact absurd hr h1
+    | fail => rw [hr] at t1; exact t1.mono fun n hn => by rw [hn]
+    | stuck => rw [hr] at t1; exact t1.mono fun n hn => by rw [hn]
+    | ok s1 ps =>
+      rw [hr] at t1 hne
+      simp only [] at hne
+      have a1 : s1.atomic = a := by rw [hap _ _ _ _ hr, ha]
+      by_cases hre : rest.isEmpty = true
+      · simp only [hre, ↓reduceIte]
+        exact t1.mono fun n hn => by rw [hn]
+      · simp only [hre, Bool.false_eq_true, ↓reduceIte] at hne ⊢
+        have h2 : skip g rec k s1 ≠ .oof := by intro x; rw [x] at hne; exact hne rfl
+        have t2 := hsk s1 h2
+        cases hs : skip g rec k s1 with
+        | oof => exact absurd hs h2
+        | stuck =>
+          rw [hs] at t2
+          exact (t1.and t2).mono fun n hn => by rw [hn.1]; simp only [hn.2]
+        | fail =>
+          rw [hs] at t2 hne
+          simp only [] at hne
+          have t3 := ih s1 _ a1 hne
+          exact ((t1.and t2).and t3).mono fun n hn => by rw [hn.1.1]; simp only [hn.1.2]; exact hn.2
+        | ok s2 tps =>
+          rw [hs] at t2 hne
+          simp only [] at hne
+          have a2 : s2.atomic = a := by rw [skip_atomic g _ _ _ _ _ hs, a1]
+          have t3 := ih s2 _ a2 hne
+          exact ((t1.and t2).and t3).mono fun n hn => by rw [hn.1.1]; simp only [hn.1.2]; exact hn.2
+
+theorem choiceL_sim {rec : Sem0} (a : Bool) :
+    ∀ (es es' : List Expr), All2 (SimAt inp g' rec a) es es' →
+      ∀ (s : S0), s.atomic = a → choiceL rec es s ≠ .oof →
+        Evt (fun n => choiceL (run g' inp n) es' s = choiceL rec es s) := by
+  intro es es' hes
+  induction hes with
+  | nil => intro s _ _; exact Evt.const rfl
+  | @cons e e' rest rest' he hrest ih =>
+    intro s ha hne
+    simp only [choiceL] at hne ⊢
+    have h1 : rec e s ≠ .oof := by intro x; rw [x] at hne; exact hne rfl
+    have t1 := he s ha h1
+    cases hr : rec e s with
+    | oof => exact absurd hr h1
+    | ok s1 ps => rw [hr] at t1; exact t1.mono fun n hn => by rw [hn]
+    | stuck => rw [hr] at t1; exact t1.mono fun n hn => by rw [hn]
+    | fail =>
+      rw [hr] at t1 hne
+      simp only [] at hne
+      have t2 := ih s ha hne
+      exact (t1.and t2).mono fun n hn => by rw [hn.1]; exact hn.2
+
+theorem repLoop_sim {rec : Sem0} (hap : AP rec) (kk : Nat) (hsk : SkipSim g inp g' rec kk) (a : Bool)
+    (e e' : Expr) (he : SimAt inp g' rec a e e') :
+    ∀ (k : Nat) (first : Bool) (s : S0) (acc : List Pair), s.atomic = a →
+      repLoop g rec e k kk first s acc ≠ .oof →
+      Evt2 (fun n k' => repLoop g' (run g' inp n) e' k' n first s acc = repLoop g rec e k kk first s acc) := by
+  intro k
+  induction k with
+  | zero => intro first s acc _ hne; exact absurd rfl hne
+  | succ k ih =>
+    intro first s acc ha hne
+    simp only [repLoop] at hne
+    have hsk1 : Evt (fun n => (if first = true then R0.ok s [] else skip g' (run g' inp n) n s)
+        = (if first = true then R0.ok s [] else skip g rec kk s)) := by
+      by_cases hf : first = true
+      · simp only [hf, ↓reduceIte]; exact Evt.const trivial
+      · simp only [hf, Bool.false_eq_true, ↓reduceIte] at hne ⊢
+        have : skip g rec kk s ≠ .oof := by intro x; rw [x] at hne; exact hne rfl
+        exact hsk s this
+    obtain ⟨N1, e1⟩ := hsk1
+    cases hs : (if first = true then R0.ok s [] else skip g rec kk s) with
+    | oof => rw [hs] at hne; exact absurd rfl hne
+    | fail =>
+      rw [hs] at e1
+      refine ⟨N1 + 1, fun n k' hn hk => ?_⟩
+      obtain ⟨k'', rfl⟩ : ∃ m, k' = m + 1 := ⟨k' - 1, by omega⟩
+      simp only [repLoop, hs, e1 n (by omega)]
+    | stuck =>
+      rw [hs] at e1
+      refine ⟨N1 + 1, fun n k' hn hk => ?_⟩
+      obtain ⟨k'', rfl⟩ : ∃ m, k' = m + 1 := ⟨k' - 1, by omega⟩
+      simp only [repLoop, hs, e1 n (by omega)]
+    | ok s1 tps =>
+      have a1 : s1.atomic = a := by
+        by_cases hf : first = true
+        · simp only [hf, ↓reduceIte, R0.ok.injEq] at hs; rw [← hs.1, ha]
+        · simp only [hf, Bool.false_eq_true, ↓reduceIte] at hs
+          rw [skip_atomic g _ _ _ _ _ hs, ha]
+      rw [hs] at e1 hne
+      simp only [] at hne
+      have h2 : rec e s1 ≠ .oof := by intro x; rw [x] at hne; exact hne rfl
+      obtain ⟨N2, e2⟩ := he s1 a1 h2
+      cases hr : rec e s1 with
+      | oof => exact absurd hr h2
+      | fail =>
+        rw [hr] at e2
+        refine ⟨N1 + N2 + 1, fun n k' hn hk => ?_⟩
+        obtain ⟨k'', rfl⟩ : ∃ m, k' = m + 1 := ⟨k' - 1, by omega⟩
+        simp only [repLoop, hs, hr, e1 n (by omega), e2 n (by omega)]
+      | stuck =>
+        rw [hr] at e2
+        refine ⟨N1 + N2 + 1, fun n k' hn hk => ?_⟩
+        obtain ⟨k'', rfl⟩ : ∃ m, k' = m + 1 := ⟨k' - 1, by omega⟩
+        simp only [repLoop, hs, hr, e1 n (by omega), e2 n (by omega)]
+      | ok s2 ps =>
+        rw [hr] at e2 hne
+        have a2 : s2.atomic = a := by rw [hap _ _ _ _ hr, a1]
+        obtain ⟨N3, e3⟩ := ih false s2 _ a2 hne
+        refine ⟨N1 + N2 + N3 + 1, fun n k' hn hk => ?_⟩
+        obtain ⟨k'', rfl⟩ : ∃ m, k' = m + 1 := ⟨k' - 1, by omega⟩
+        simp only [repLoop, hs, hr, e1 n (by omega), e2 n (by omega)]
+        exact e3 n k'' (by omega) (by omega)
+
+/-! ### terminals do not look at the rule table -/
+
+def isTerm : Expr → Bool
+  | .str _ | .ci _ | .range _ _ | .pushLit _ | .peek | .pop | .drop | .peekAll | .popAll
+  | .peekSlice _ _ | .anyB | .soiB | .eoiB | .uprop _ | .skipUntil _ | .optChoice _ _ => true
+  | _ => false
+
+theorem uprop_congr (hu : g'.usets = g.usets) : g'.uprop = g.uprop := by
+  funext n c
+  simp only [Grammar.uprop, hu]
+
+theorem optMatchOnce_congr (hu : g'.usets = g.usets) (alts : List Alt) (pos : Nat) :
+    L1.optMatchOnce g' inp alts pos = L1.optMatchOnce g inp alts pos := by
+  simp only [L1.optMatchOnce, uprop_congr g g' hu]
+
+theorem optMatchStar_congr (hu : g'.usets = g.usets) (alts : List Alt) :
+    ∀ k pos, L1.optMatchStar g' inp alts k pos = L1.optMatchStar g inp alts k pos := by
+  intro k
+  induction k with
+  | zero => intro pos; rfl
+  | succ k ih =>
+    intro pos
+    simp only [L1.optMatchStar, optMatchOnce_congr g inp g' hu, ih]
+
+theorem optMatch_congr (hu : g'.usets = g.usets) (alts : List Alt) (star : Bool) (pos : Nat) :
+    L1.optMatch g' inp alts star pos = L1.optMatch g inp alts star pos := by
+  simp only [L1.optMatch, optMatchOnce_congr g inp g' hu, optMatchStar_congr g inp g' hu]
+
+theorem term_step (hu : g'.usets = g.usets) (k k' : Nat) (rec rec' : Sem0) (e : Expr) (s : S0)
+    (ht : isTerm e = true) : step g' inp k' rec' e s = step g inp k rec e s := by
+  cases e <;> simp [isTerm] at ht <;> try rfl
+  · simp only [step, uprop_congr g g' hu]
+  · simp only [step, optMatch_congr g inp g' hu]
+
+/-! ### one-level congruence -/
+
+/-- the list `step` hands to `seqL`, for the node kinds that are sequences by definition -/
+def seqView : Expr → Option (List Expr)
+  | .seq es => some es
+  | .rep1 e => some [e, .rep e]
+  | .repExact e n => some (List.replicate n e)
+  | .repMin e n => some (List.replicate n e ++ [.rep e])
+  | .repMax e n => some (List.replicate n (.opt e))
+  | .repMinMax e m n => some (List.replicate m e ++ List.replicate (n - m) (.opt e))
+  | _ => none
+
+theorem step_seqView (k : Nat) (rec : Sem0) {e : Expr} {es : List Expr} (h : seqView e = some es) (s : S0) :
+    step g inp k rec e s = seqL g rec k es s [] := by
+  cases e <;> simp [seqView] at h <;> subst h <;> rfl
+
+/-- `e` and `e'` have the same root (or are both sequence-like) and `R`-related children; `R` is
+    indexed by the atomicity flag of the states in which the children run -/
+inductive Cong (R : Bool → Expr → Expr → Prop) : Bool → Expr → Expr → Prop
+  | term {a e} : isTerm e = true → Cong R a e e
+  | ident {a n t t'} :
+      (match g.lookup n, g'.lookup n with
+       | none, none => True
+       | some x, some x' => x'.name = x.name ∧ x'.mod = x.mod ∧
+           R (ruleAtomic x.name x.mod a) x.body x'.body
+       | _, _ => False) → Cong R a (.ident n t) (.ident n t')
+  | rule {a n m sm sm' b b'} : R (ruleAtomic n m a) b b' → Cong R a (.rule n m sm b) (.rule n m sm' b')
+  | seqlike {a e e' es es'} : seqView e = some es → seqView e' = some es' → All2 (R a) es es' → Cong R a e e'
+  | choice {a es es'} : All2 (R a) es es' → Cong R a (.choice es) (.choice es')
+  | opt {a e e'} : R a e e' → Cong R a (.opt e) (.opt e')
+  | rep {a e e'} : R a e e' → Cong R a (.rep e) (.rep e')
+  | andP {a e e'} : R a e e' → Cong R a (.andP e) (.andP e')
+  | notP {a e e'} : R a e e' → Cong R a (.notP e) (.notP e')
+  | group {a e e' t t'} : R a e e' → Cong R a (.group e t) (.group e' t')
+  | push {a e e'} : R a e e' → Cong R a (.push e) (.push e')
+
+theorem cong_sim {rec : Sem0} (hap : AP rec) (k : Nat) (hsk : SkipSim g inp g' rec k)
+    (hu : g'.usets = g.usets) {a : Bool} {e e' : Expr}
+    (h : Cong g g' (SimAt inp g' rec) a e e') (s : S0) (ha : s.atomic = a)
+    (hne : step g inp k rec e s ≠ .oof) : Tgt inp g' e' s (step g inp k rec e s) := by
+  apply Tgt.of_step
+  cases h with
+  | term ht => exact ⟨0, fun n _ => term_step g inp g' hu _ _ _ _ _ _ ht⟩
+  | @ident n t t' hl =>
+    simp only [step, callRule] at hne ⊢
+    cases h1 : g.lookup n with
+    | none =>
+      cases h2 : g'.lookup n with
+      | none => exact Evt.const rfl
+      | some x' => rw [h1, h2] at hl; exact absurd hl id
+    | some x =>
+      cases h2 : g'.lookup n with
+      | none => rw [h1, h2] at hl; exact absurd hl id
+      | some x' =>
+        rw [h1, h2] at hl
+        obtain ⟨e1, e2, e3⟩ := hl
+        rw [h1] at hne
+        simp only [] at hne ⊢
+        rw [← ha] at e3
+        refine (ruleApply_sim inp g' x.name x.mod x.body x'.body s e3 hne).mono ?_
+        intro n hn
+        rw [e1, e2, hn]
+  | rule hb =>
+    rw [← ha] at hb
+    exact ruleApply_sim inp g' _ _ _ _ s hb hne
+  | seqlike h1 h2 hes =>
+    rw [step_seqView g inp k rec h1] at hne ⊢
+    refine (seqL_sim g inp g' hap k hsk a _ _ hes s [] ha hne).mono ?_
+    intro n hn
+    rw [step_seqView g' inp n _ h2, hn]
+  | choice hes => exact choiceL_sim inp g' a _ _ hes s ha hne
+  | @opt e e' he =>
+    simp only [step] at hne ⊢
+    have h1 : rec e s ≠ .oof := by intro x; rw [x] at hne; exact hne rfl
+    exact (he s ha h1).mono fun n hn => by rw [hn]
+  | @rep e e' he => exact (repLoop_sim g inp g' hap k hsk a e e' he k true s [] ha hne).diag
+  | @andP e e' he =>
+    simp only [step] at hne ⊢
+    have h1 : rec e s ≠ .oof := by intro x; rw [x] at hne; exact hne rfl
+    exact (he s ha h1).mono fun n hn => by rw [hn]
+  | @notP e e' he =>
+    simp only [step] at hne ⊢
+    have h1 : rec e s ≠ .oof := by intro x; rw [x] at hne; exact hne rfl
+    exact (he s ha h1).mono fun n hn => by rw [hn]
+  | @group e e' t t' he =>
+    simp only [step] at hne ⊢
+    exact he s ha hne
+  | @push e e' he =>
+    simp only [step] at hne ⊢
+    have h1 : rec e s ≠ .oof := by intro x; rw [x] at hne; exact hne rfl
+    exact (he s ha h1).mono fun n hn => by rw [hn]
 
 end L0
 end Pest
